@@ -269,7 +269,7 @@ class Violation(Exception):
         self.extra = extra or {}
 
 
-def parse_invariants(p, stats, decay_mothers=None):
+def parse_invariants(p, stats, decay_mothers=None, cc=True):
     """After a complete parse: copied / conjugated tables are equal to what
     they derive from and share no mutable parse-tree object with it."""
     from lark import Tree
@@ -318,6 +318,22 @@ def parse_invariants(p, stats, decay_mothers=None):
                     raise Violation("derived_table_shares_state",
                                     {"kind": "any", "derived": idsets[a][1], "other": idsets[b][1], "positions": [a, b],
                                      "shared_objects": len(idsets[a][0] & idsets[b][0])}, {"kind": "any"})
+    # ... and a copy is usable as the source of a later CDecay: the conjugate of a genuine copy gets a table
+    if cc and decay_mothers is not None:
+        try:
+            from decaylanguage.dec.dec import find_charge_conjugate_match as _match
+
+            ccdefs_ = p.dict_charge_conjugates()
+            for x in p.list_charge_conjugate_decays():
+                y = _match(x, ccdefs_)
+                if (x not in decay_mothers and y != x and y in copies and y not in decay_mothers and copies[y] in decay_mothers
+                        and y in names and x not in names):
+                    raise Violation("copy_usable_as_cdecay_source", {"cdecay": x, "its_source_is_the_copy": y, "copied_from": copies[y],
+                                                                     "mother_names": names[:30]})
+        except Violation:
+            raise
+        except Exception:
+            pass
     pairs = []
     for new, old in copies.items():
         if new in names and old in names and names.index(new) != names.index(old):
@@ -479,7 +495,7 @@ def run_session(case: dict) -> dict:
             if res == "ok":
                 meta = case["docs"][case["instances"][i]["doc"]].get("meta", {})
                 dm = meta.get("decay_mothers", meta.get("mothers"))
-                parse_invariants(insts[i], stats, set(dm) if dm is not None else None)
+                parse_invariants(insts[i], stats, set(dm) if dm is not None else None, cc=cc)
             hashes[i] = state_hash(insts[i])
             return res
 
